@@ -68,6 +68,9 @@ def impl_merge(tmp, address, size, files, via="main"):
     if files is not None:
         paths = []
         for i, txt in enumerate(files):
+            if txt in files[:i]:
+                paths.append(paths[files.index(txt)])      # the same image again: the request names the same file twice
+                continue
             p = core.tricky_file(tmp, f"slot{i}.hex", txt.encode(), decoy=b":00000001FF\n") if i % 2 == 0 else os.path.join(tmp, f"slot{i}.hex")
             with open(p, "w") as fh:
                 fh.write(txt)
@@ -344,6 +347,7 @@ def merge_scenarios(ck):
             out.append(("overlap-1", base, size, [record_image(rng, base, slot), record_image(rng, base + slot - 1, 2)]))
         out.append(("overlap-same", base, size, inside + [record_image(rng, pos[0], slot)]))
         out.append(("overlap-inner", base, size, [inside[0], record_image(rng, pos[0] + 5, 3)]))
+        out.append(("overlap-same-file", base, size, [inside[0], inside[-1], inside[0]] if len(inside) > 1 else [inside[0], inside[0]]))
         # adjacent without a gap; sparse inputs (several segments in one file)
         adj = [record_image(rng, base + i * slot, slot) for i in range(min(8, size // slot))]
         out.append(("adjacent", base, size, adj))
